@@ -89,6 +89,27 @@ fn check_call(word: &str, cands: &[&str], n: usize, cutoff: f32) -> Result<u64, 
             ));
         }
     }
+    // a caller-side DiffableStr with case-insensitive equality: the word upper-cased, the
+    // candidates as they are - the ranking must be the one of the lower-case word
+    if n == 1 || cands.len() > 1 {
+        let upper: Vec<u8> = word.bytes().map(|c| c.to_ascii_uppercase()).collect();
+        let wc = crate::instr::Ci::new(&upper);
+        let cc: Vec<&crate::instr::Ci> = cands.iter().map(|c| crate::instr::Ci::new(c.as_bytes())).collect();
+        let gotc = subject(|| get_close_matches(wc, &cc, n, cutoff)).map_err(|p| format!("case-insensitive DiffableStr: panic: {}", p))?;
+        let gotc: Vec<&[u8]> = gotc.iter().map(|c| &c.0).collect();
+        let wantb: Vec<&[u8]> = want.iter().map(|c| c.as_bytes()).collect();
+        if gotc != wantb {
+            return Err(format!(
+                "get_close_matches over a case-insensitive DiffableStr ({:?}, {:?}, {}, {:?}) = {:?}; exhaustive ranking gives {:?}",
+                String::from_utf8_lossy(&upper),
+                cands,
+                n,
+                cutoff,
+                gotc.iter().map(|b| String::from_utf8_lossy(b).to_string()).collect::<Vec<_>>(),
+                want
+            ));
+        }
+    }
     let mut fp = Fp::new();
     for s in &got {
         for b in s.bytes() {
